@@ -559,10 +559,15 @@ func merge(prop, tier, outDir string, nshards, violations int, wall float64) err
 	if err != nil {
 		return err
 	}
-	if err := os.MkdirAll(filepath.Join(root, "evidence"), 0o755); err != nil {
+	dir := filepath.Join(root, "evidence")
+	if alt := os.Getenv("VERIF_REPO"); alt != "" && alt != "/repo" {
+		// a run against a scratch copy (mutants, trial fixes) must not overwrite the evidence of /repo
+		dir = filepath.Join(root, ".work", "evidence-alt")
+	}
+	if err := os.MkdirAll(dir, 0o755); err != nil {
 		return err
 	}
-	return os.WriteFile(filepath.Join(root, "evidence", prop+".json"), b, 0o644)
+	return os.WriteFile(filepath.Join(dir, prop+".json"), b, 0o644)
 }
 
 func assumptions(prop string) []string {
